@@ -22,8 +22,15 @@ fn reject_g(_t: Option<SimpleTerm>) -> bool {
 }
 
 fn scenario(name: &str, n: usize) -> i32 {
-    if name == "nt_quoted_string" {
-        let lex: String = std::iter::repeat('\n').take(n).collect();
+    if name.starts_with("nt_quoted_string") {
+        // nt_quoted_string[:n|r|q|b] — which of the four escaped characters is repeated n times
+        let ch = match name.split_once(':').map(|x| x.1) {
+            Some("r") => '\r',
+            Some("q") => '"',
+            Some("b") => '\\',
+            _ => '\n',
+        };
+        let lex: String = std::iter::repeat(ch).take(n).collect();
         let lit = SimpleTerm::LiteralDatatype(lex.into(), sophia_api::ns::xsd::string.iri().unwrap().map_unchecked(Into::into));
         let g = vec![[iri(0, "s"), iri(0, "p"), lit]];
         let mut ser = NtSerializer::new_stringifier();
